@@ -1,5 +1,6 @@
 import GramModel.DeBruijn
 import GramModel.Eval
+import GramModel.Print
 import GramModel.Generated.Arms
 
 /-!
@@ -540,3 +541,19 @@ def errSitesOK (sites : List (V × List String × List Bool × String)) : Bool :
         (ta && a == s.2.2.2) || (tb && b == s.2.2.2) ||
         (s.1 == .If && ta && tb && a == "then_branch" && b == "else_branch" && s.2.2.2 == "term")
     | _, _ => false)
+
+/-! ## The printer's operator arms -/
+
+def vToBinOp : V → Option BinOp
+  | .Sum => some .sum | .Difference => some .diff | .Product => some .prod | .Quotient => some .quot
+  | .LessThan => some .lt | .LessThanOrEqualTo => some .le | .EqualTo => some .eq | .GreaterThan => some .gt
+  | .GreaterThanOrEqualTo => some .ge | _ => none
+
+/-- every binary arm of `Display` prints `group(left) OP group(right)` with single spaces and the operator text the
+model prints (`opChars`), operands in place; negation prints `-group(operand)` -/
+def printOpsOK : Bool :=
+  printOps.map (·.1) == allBinary ++ [.Negation] &&
+  printOps.all (fun r =>
+    match vToBinOp r.1 with
+    | some op => r.2.1.toList == "{} ".toList ++ opChars op ++ " {}".toList && r.2.2 == [("group", 0), ("group", 1)]
+    | none => r.2.1 == "-{}" && r.2.2 == [("group", 0)])
